@@ -155,7 +155,9 @@ Fixpoint tid_todo (t : tid) : bool :=
    3  the XCDR2 reader ignores the DHEADER of a nested appendable structure, so an evolved
       nested structure is not skipped / is over-read
    4  the XCDR2 parameter search compares member ids `as u16`
-   5  todo!() on TkNone / map / SCC / extended type identifiers *)
+   5  todo!() on TkNone / map / SCC / extended type identifiers
+   6  FINAL / APPENDABLE structures: a member that is optional on one side only is accepted,
+      although the optional member is preceded by a presence flag / parameter header *)
 Definition C39_known (c : C39_case) : N :=
   match c_op c with
   | Ev v e tc t1 t2 x =>
@@ -168,6 +170,11 @@ Definition C39_known (c : C39_case) : N :=
             | Mutable, Mutable => negb (ids_u16 t1 && ids_u16 t2)
             | _, _ => false
             end then 4%N
+    else if match ad_ext t1, ad_ext t2 with
+            | Mutable, _ | _, Mutable => false
+            | _, _ => existsb (fun mm => negb (Bool.eqb (m_opt (am_info (fst mm))) (m_opt (am_info (snd mm)))))
+                              (combine (ad_members t1) (ad_members t2))
+            end then 6%N
     else 0%N
   | As tc c1 c2 =>
     if existsb (fun m => tid_todo (sm_tid m)) (st_members c1 ++ st_members c2) then 5%N else 0%N
